@@ -48,7 +48,7 @@ func newCRLWorld(issuerKey string, nDP int, freshestInCert bool, issuerCRLSign b
 	w.root = pki.Issue(rt, pki.K(issuerKey), nil, nil)
 	lt := pki.LeafTmpl("c05 leaf")
 	for i := 0; i < nDP; i++ {
-		w.urls = append(w.urls, fmt.Sprintf("http://crl.test/dp%d/base", i))
+		w.urls = append(w.urls, fmt.Sprintf("http://crl.test/dp%d/base", urlLabel[i]))
 	}
 	lt.CRL = w.urls
 	lt.OCSP = ocspURLs
@@ -81,7 +81,7 @@ func crlBehaviours() []crlBehaviour {
 	baseSpec := func(w *crlWorld, dp int, withDelta bool) pki.CRLSpec {
 		s := pki.CRLSpec{Issuer: w.root, Number: baseNum, NextUpdate: fresh}
 		if withDelta {
-			s.Freshest = pki.CDPValue([][]string{{"uri:" + fmt.Sprintf("%s/dp%d/delta", w.prefix, dp)}})
+			s.Freshest = pki.CDPValue([][]string{{"uri:" + fmt.Sprintf("%s/dp%d/delta", w.prefix, urlLabel[dp])}})
 		}
 		return s
 	}
@@ -291,7 +291,7 @@ func (s *c05Scenario) body(c *mc.Ctx) {
 	}
 	dpOf := func(u string) int {
 		for i := range w.urls {
-			if strings.HasPrefix(u, fmt.Sprintf("http://crl.test/dp%d/", i)) {
+			if strings.HasPrefix(u, fmt.Sprintf("http://crl.test/dp%d/", urlLabel[i])) {
 				return i
 			}
 		}
